@@ -334,7 +334,41 @@ func HarvestSuiteExpectations() []SuiteExpect {
 // what makes a backtracking parser or a recursive evaluator super-linear.
 func Nest(r *rand.Rand) string {
 	rep := func(s string, n int) string { return strings.Repeat(s, n) }
-	switch r.Intn(12) {
+	switch r.Intn(15) {
+	case 12, 13, 14:
+		// one or two segments of ANY step form repeated, half of the time as often as 256 characters allow: whatever the
+		// parser does per step (linking, labelling, copying to the inner selectors of a multi-name selector) is done
+		// up to 80 times over; anything super-linear in the number of steps shows as a hang
+		segs := []string{".a", "..a", "[0]", ".*", "['a']", "[*]", "[0:1]", "['a','b']", "['a','b','c']", "[*,*]", "[0,1]", "[0,*]", "[*,'a']", "[?(@.a)]", "[?(@)]",
+			"[1:2,0]", "..['a','b']", "..*", "..[*]", "..[0,1]", "[?(@.a==1)]", "[?($)]", "[-1]", "[::2]", `["a","b"]`, "[ 'a' , 'b' ]", "['a','a']", "[?(!@.x)]"}
+		a, b := segs[r.Intn(len(segs))], ""
+		if r.Intn(3) == 0 {
+			b = segs[r.Intn(len(segs))]
+		}
+		max := (255 - 8) / (len(a) + len(b))
+		for _, dup := range []string{"[*,*]", "[0,*]", "[*,'a']", "['a','a']"} {
+			if (a == dup || b == dup) && max > 10 {
+				max = 10 // these select the same child twice: k of them in a row mean 2^k results in any evaluator
+			}
+		}
+		if (strings.HasPrefix(a, "..") || strings.HasPrefix(b, "..")) && !(a == "..a" && b == "") && max > 4 {
+			max = 4 // k descents over a document of depth d select O(d^k) nodes in any evaluator (documents are built to be hit)
+		}
+		n := max
+		if r.Intn(2) == 0 {
+			n = 1 + r.Intn(max)
+		}
+		out := []string{"$", "", "$.x"}[r.Intn(3)] + rep(a+b, n)
+		if out[0] == '.' && !strings.HasPrefix(out, "..") {
+			out = out[1:] // rootless dot-notation starts with the name itself
+		}
+		switch r.Intn(6) {
+		case 0:
+			out += ".count()"
+		case 1:
+			out = "$[?(@" + rep(a+b, n*4/5) + ")]"
+		}
+		return out
 	case 0: // filter inside filter operand (existence)
 		d := 1 + r.Intn(40)
 		return "$" + rep("[?(@", d) + ".a" + rep(")]", d)
